@@ -32,7 +32,7 @@ func init() {
 		walkCheckBudget("C05", []string{"C05:"}, 2, 3, 25, 400)(c)
 		chainCheck("C05", []string{"C05:", "C04:build-hangs"}, 5, 6, func(e *chainEngine, thorough bool) {
 			e.universes = []chainState{{}, {Queue: true}}
-			e.ops = []chainOp{markOp("fail-y-exit"), markOp("fail-x-exit"), markOp("fail-y-noout"), markOp("fail-y-mid"), opTaintY, opBuild, opBuildFF}
+			e.ops = []chainOp{markOp("fail-y-exit"), markOp("fail-x-exit"), markOp("fail-y-noout"), markOp("fail-y-mid"), markOp("fail-d-nodir"), opTaintY, opBuild, opBuildFF}
 			if thorough {
 				e.ops = append(e.ops, markOp("fail-y-timeout"), opEditY, markOp("w-self-destroy"), opEditFirst)
 			}
